@@ -1,6 +1,7 @@
 (* C04 history: refutations about renderings that are NO LONGER in /repo (kept as documentation of what the old code did).
    F-C-OVR-CAP (fixed by 2e84c7a): length checks against the DSDL capacity with a reduced storage, unchecked stores with the
    up-front test compiled out.  F-C-PTR-PAST-END (fixed by 9be3c74): &buffer[offset_bits / 8U] unclamped.
+   F-CPP-PTR-PAST-END (fixed by 939fc9d): any_bitspan::subspan() returned data_.data() + offset_bytes unclamped.
    F-CPP-UNION14 (fixed by d43de40): destroy_current over the filtered field list.  F-CPP-VLA (fixed by 5719048): no clear(). *)
 From Verif Require Import Wire WireThm Walker WalkerSafe WalkerSafeThm WalkerSafeCpp WalkerSafeCppThm.
 From Coq Require Import Lia.
@@ -59,3 +60,14 @@ Proof. exists [false; true], [1; 0; 1], 0. vm_compute. discriminate. Qed.
 Theorem vla_no_clear_refuted : exists prior decoded : list nat,
   vec nat (run_vla nat 0 [VSizeRead; VSizeCheck; VReserve; VLoop [LTmp; LDecodeTmp; LPushBack]] prior decoded) <> decoded.
 Proof. exists [1; 2; 3], [9; 8]. vm_compute. discriminate. Qed.
+
+(* any_bitspan::subspan() before 939fc9d: data_.data() + offset_bytes with offset_bytes > size (F-CPP-PTR-PAST-END) *)
+Theorem cpp_des_ptr_in_bounds_refuted :
+  exists t prior buf capB, wf_ty t = true /\ length buf = 8 * capB /\
+    forallb (ptr_ok capB) (snd (walk_des_safe (cpp_cfg false) t prior buf)) = false.
+Proof.
+  exists (TComp false [TPrim (PU 64 true); TComp false [TPrim (PU 8 true); TPrim (PU 8 true)] None] None), dflt,
+         (bits_of_bytes [1; 2]%N), 2.
+  split; [reflexivity|]. split; [reflexivity | vm_compute; reflexivity].
+Qed.
+
